@@ -321,7 +321,12 @@ class ModbusTransactionManager(object):
                 elif isinstance(self.client.framer, ModbusRtuFramer):
                     func_code = byte2int(read_min[-1])
                 elif isinstance(self.client.framer, ModbusAsciiFramer):
-                    func_code = int(read_min[3:5], 16)
+                    try:
+                        func_code = int(read_min[3:5], 16)
+                    except ValueError:
+                        raise InvalidMessageReceivedException(
+                            "Invalid message received, the function code "
+                            "%r is not hexadecimal" % read_min[3:5])
                 elif isinstance(self.client.framer, ModbusBinaryFramer):
                     func_code = byte2int(read_min[-1])
                 elif isinstance(self.client.framer, ModbusTlsFramer):
